@@ -16,6 +16,9 @@ from vlib import cases, core, gen, tracecheck
 LEVEL = "exploration"
 
 
+FIXT = []
+
+
 def build_case(ctx, rng, cid):
     n = rng.choice([1, 2, 3, 3, 4, 5, 6, 8, 10, 12])
     tz_min = 0
@@ -23,7 +26,7 @@ def build_case(ctx, rng, cid):
     d = ctx.casedir("case%05d" % cid)
     srcs, args = [], []
     for sid in range(n):
-        kind = rng.choice(["ok"] * 8 + ["empty", "notimestamps", "corruptgz", "missing", "emptyutmpgz", "truncutmpxz"])
+        kind = rng.choice(["ok"] * 8 + ["empty", "notimestamps", "corruptgz", "missing", "emptyutmpgz", "truncutmpxz", "fixture", "fs"])
         if kind == "ok":
             cnt = rng.choice([0, 1, 2, 4, 6, 7, 12, 30, 80])
             s = cases.make_source(rng, sid, cnt, t0, tz_min, mode=rng.choice(["ties", "dense", "subsec"]),
@@ -35,6 +38,22 @@ def build_case(ctx, rng, cid):
             args.append(("bad", gen.write(os.path.join(d, "e%d.log" % sid), b"")))
         elif kind == "notimestamps":
             args.append(("bad", gen.write(os.path.join(d, "n%d.log" % sid), b"no timestamp here\nnor here, really\n" * 5)))
+        elif kind == "fixture" and FIXT:
+            # a shipped evtx / journal file (plain or compressed -> temp-file extraction in the worker); no byte model for these:
+            # the trace rules and equality across schedules still apply
+            p = rng.choice(FIXT)
+            if rng.random() < 0.5:
+                q = os.path.join(d, "f%d-%s.gz" % (sid, os.path.basename(p)))
+                gen.write(q, gen.gz_bytes(open(p, "rb").read(), level=1))
+                p = q
+            args.append(("raw", p))
+        elif kind == "fs":
+            from vlib import fsgen
+            lay = rng.choice([l for l in fsgen.LAYOUTS.values() if getattr(l, "selectable", True)])
+            recs = [fsgen.make_record(lay, i, t0 // gen.NS + i, usec=0)[0] for i in range(rng.choice([1, 4, 9]))]
+            fd = os.path.join(d, "fs%d" % sid)
+            os.makedirs(fd, exist_ok=True)
+            args.append(("raw", gen.write(os.path.join(fd, lay.filename), b"".join(recs))))
         elif kind == "emptyutmpgz":
             # a compressed accounting file that decompresses to nothing
             args.append(("bad", gen.write(os.path.join(d, "w%d.wtmp.gz" % sid), gen.gz_bytes(b""))))
@@ -122,6 +141,8 @@ def one_case(job):
     okorder = [a[1] for a in args if a[0] == "ok"]
     exp = cases.expected_stdout(cases.merge_model(srcs, okorder))
     argv = [s4, "--color", "never", "-t=+00:00"] + [a[1].arg if a[0] == "ok" else a[1] for a in args]
+    if any(a[0] == "raw" for a in args):
+        exp = None      # no byte model when a shipped evtx/journal or a fixed-struct file takes part
     res = []
     for i, extra in enumerate(scheds):
         trace = os.path.join(d, "trace%d" % i)
@@ -144,6 +165,8 @@ def run(ctx):
                 "(>=2 live sources)") % nsched
     ctx.assumptions = ["trace lines are written under one mutex: line order is the real-time order of the log points",
                        "liveness is checked as bounded progress (watchdog 150 s with injected delays <= 0.2 s each)"]
+    from vlib import fixtures
+    FIXT[:] = [p for p in fixtures.evtxs() + fixtures.journals() if os.path.getsize(p) < 3_000_000]
     jobs = []
     for cid in range(ncases):
         d, srcs, args = build_case(ctx, rng, cid)
@@ -183,7 +206,7 @@ def run(ctx):
                               info={"argv": r.argv, "env": r.env})
                 continue
             outs.add(r.out)
-            if r.out != exp:
+            if exp is not None and r.out != exp:
                 ctx.violation("C06|stdout-differs-from-model", "stdout differs from the reference merge under %s" % (extra,),
                               src_dir=d, files={"expected.stdout": exp, "observed.stdout": r.out},
                               info={"argv": r.argv, "env": r.env})
